@@ -30,7 +30,7 @@ EXPECTED_PROBES = ["reordered", "duplicate", "wraparound", "near_2_23", "time_ru
                    "final_error_code", "icmp_end", "not_observable", "late_notification_con", "late_notification_non",
                    "iterator_busy_at_end", "blockwise_wrapper", "companion_observation", "peer_request_under_observation_token", "wall_clock_step",
                    "iteration_started_late", "iteration_resumed_with_new_loop", "iterator_wait_timed_out",
-                   "application_modifies_delivered_notification"]
+                   "application_modifies_delivered_notification", "two_concurrent_iterations"]
 
 M24 = 1 << 24
 M23 = 1 << 23
@@ -80,7 +80,9 @@ def gen(r, tier):
         consumer["mutate"] = r.choice(["zero", "none", "big", "minus"])
     if consumer["iter"] is not None:
         # how the application consumes: one loop from the start; a loop entered late; waits with time-outs; a second loop
-        consumer["style"] = r.weighted([(5, "for"), (2, "timeouts"), (2, "two_loops")])
+        consumer["style"] = r.weighted([(5, "for"), (2, "timeouts"), (2, "two_loops"), (2, "two_concurrent")])
+        if consumer["style"] == "two_concurrent":
+            consumer["slow"] = r.choice([0.3, 1.0, 4.0])
         consumer["start"] = r.choice([0.0, 0.0, 0.0, 0.3, 2.0, 20.0, 150.0])
         if consumer["style"] == "timeouts":
             consumer["timeouts"] = [r.choice([0.01, 0.3, 1.0, 5.0, 60.0, 200.0]) for _ in range(r.randint(1, 4))]
@@ -123,7 +125,8 @@ def systematic(tier):
                     for cons in ({"style": "for", "start": 2.5}, {"style": "for", "start": 10.0},
                                  {"style": "timeouts", "timeouts": [0.4]}, {"style": "timeouts", "timeouts": [0.4], "start": 1.7},
                                  {"style": "two_loops", "first_items": 1, "pause": 1.2},
-                                 {"style": "two_loops", "first_items": 2, "pause": 10.0}):
+                                 {"style": "two_loops", "first_items": 2, "pause": 10.0},
+                                 {"style": "two_concurrent", "slow": 1.5}, {"style": "two_concurrent", "slow": 0.2}):
                         out.append({"first": {"observe": 9, "delay": 0.005}, "events": events,
                                     "consumer": dict({"iter": 0.0, "callbacks": True}, **cons), "blockwise": False})
     return out
@@ -353,6 +356,24 @@ def execute(sim, scn):
                             got(m, 0)
                             if d:
                                 await asyncio.sleep(d)
+                    elif style == "two_concurrent":
+                        # two parts of the application iterate over the one observation at the same time, one of them
+                        # slower than the other: each has a (lossy) view of its own and gets the freshest / the final item
+                        sim.probe("two_concurrent_iterations")
+                        other_done = loop.create_future()
+
+                        async def second():
+                            try:
+                                async for m in obs:
+                                    it2_log.append((loop.now, bytes(m.payload), m.opt.observe))
+                                    await asyncio.sleep(scn["consumer"].get("slow", 1.0))
+                                it2_end.append((loop.now, "stop"))
+                            except BaseException as e:
+                                if isinstance(e, (SystemExit, KeyboardInterrupt, GeneratorExit)):
+                                    raise
+                                it2_end.append((loop.now, e))
+                        keep.append(loop.create_task(second()))
+                        await plain_loop(0)
                     else:
                         await plain_loop(0)
                     it_end.append((loop.now, "stop"))
@@ -365,6 +386,8 @@ def execute(sim, scn):
             keep.append(loop.create_task(consume()))
 
     keep = []
+    it2_log = []
+    it2_end = []
     comp_log = []
     comp_err = []
 
@@ -600,6 +623,24 @@ def execute(sim, scn):
                 sim.violation("C07/iterator-ends-with-wrong-signal", dict(ident, got=repr(it_end[0][1])))
         elif it_end:
             sim.violation("C07/iterator-ended-without-cause", dict(ident, got=repr(it_end[0][1])))
+    if scn["consumer"].get("style") == "two_concurrent" and scn["consumer"]["iter"] is not None:
+        it2 = [(p, v) for (t, p, v) in it2_log]
+        j = 0
+        ok2 = True
+        for x in it2:
+            while j < len(got) and got[j] != x:
+                j += 1
+            if j == len(got):
+                ok2 = False
+                break
+            j += 1
+        if not ok2:
+            sim.violation("C07/iterator-delivery-not-in-callback-sequence", dict(ident, consumer="second", iterator=str(it2[:6]), callbacks=str(got[:6])))
+        elif got[-1:] != it2[-1:]:
+            sim.violation("C07/iterator-drops-unconsumed-on-termination" if end is not None else "C07/iterator-misses-freshest",
+                          dict(ident, consumer="second (slower) of two concurrent loops", last_callback=str(got[-1:]), last_iterator=str(it2[-1:])))
+        if end is not None and not it2_end:
+            sim.violation("C07/iterator-never-ends", dict(ident, consumer="second"))
     for (t, m, en, es) in sim.loop_exceptions():
         sim.anomaly("loop-exception:%s" % en, "%s %s" % (m, es))
 
